@@ -39,8 +39,6 @@ let asis_answer b p m op args =
     | AInexact (s, e, r) -> let (s, e) = normalize b (s, e) in hx s ^ " " ^ hx e ^ " " ^ flag_name r in
   let showv (s, e) = let (s, e) = normalize b (s, e) in hx s ^ " " ^ hx e ^ " NoFlag" in
   (* the answer must not depend on the digit estimate: exact estimate and estimate + 1 are both run *)
-  let both f g = let r = show (f b p m (a 3) (a 4) (a 5) (a 6)) in
-    if show (g b p m (a 3) (a 4) (a 5) (a 6)) = r then Some r else Some ("estimate-dependent " ^ r) in
   let opv f sg = Some (showv (f b p p m (a 3) (a 4) (a 5) (a 6) sg)) in
   let resv = function Ok v -> Some (showv v) | _ -> None in
   let resa = function Ok ap -> show ap | Panic _ -> "panic" | _ -> "other" in
@@ -48,12 +46,44 @@ let asis_answer b p m op args =
   let p2 () = z (List.nth args 7) in
   let n () = z (List.nth args 5) in
   let pre op' = let l = String.length op' in fun s -> String.length s > l && String.sub s 0 (l + 1) = op' ^ "_" in
+  (* round 3: the models that contain every Repr::new of the code are printed as they are (no stripping here) *)
+  let raw ap = match ap with
+    | AExact (s, e) -> hx s ^ " " ^ hx e ^ " Exact"
+    | AInexact (s, e, r) -> hx s ^ " " ^ hx e ^ " " ^ flag_name r in
+  let rawr = function Ok ap -> Some (raw ap) | _ -> None in
+  let rawv (s, e) = hx s ^ " " ^ hx e ^ " NoFlag" in
+  let rawvr = function Ok v -> Some (rawv v) | _ -> None in
+  (* the digit estimates must not matter: the pinned models are run with the exact and the worst estimate *)
+  let indep f g r = if show (f b p m (a 3) (a 4) (a 5) (a 6)) = show (g b p m (a 3) (a 4) (a 5) (a 6)) then Some r else Some ("estimate-dependent " ^ r) in
+  let sg_of o = if String.length o >= 3 && String.sub o 0 3 = "sub" then Negative else Positive in
   match op with
-  | "div" -> (* Context::div: the answer must not depend on the digit estimates *)
+  | "add" | "addl" -> indep ctx_add_x ctx_add_x1 (raw (ctx_add_n_x b p m (a 3) (a 4) (a 5) (a 6)))
+  | "sub" | "subl" -> indep ctx_sub_fixed_x ctx_sub_fixed_x1 (raw (ctx_sub_n_x b p m (a 3) (a 4) (a 5) (a 6)))
+  | "mul" | "mull" -> Some (raw (ctx_mul_n b p m (a 3) (a 4) (a 5) (a 6)))
+  | "sqr" | "sqrl" -> Some (raw (ctx_sqr_n b p m (a 3) (a 4)))
+  | "cubic" | "cubicl" -> Some (raw (ctx_cubic_n b p m (a 3) (a 4)))
+  | "div" | "divl" ->
       let r = resa (ctx_div_x b p m (a 3) (a 4) (a 5) (a 6)) in
-      if resa (ctx_div_x1 b p m (a 3) (a 4) (a 5) (a 6)) = r then (if r = "panic" || r = "other" then None else Some r)
-      else Some ("estimate-dependent " ^ r)
-  | "inv" -> (match ctx_inv b p m (a 3) (a 4) with Ok ap -> Some (show ap) | _ -> None)
+      if resa (ctx_div_x1 b p m (a 3) (a 4) (a 5) (a 6)) <> r then Some ("estimate-dependent " ^ r)
+      else rawr (ctx_div_n_x b p m (a 3) (a 4) (a 5) (a 6))
+  | "inv" | "invl" -> rawr (ctx_inv_n b p m (a 3) (a 4))
+  | "sqrt" | "sqrtl" -> rawr (ctx_sqrt_n b p m (a 3) (a 4))
+  | "rem" -> rawr (repr_rem_n b p m (a 3) (a 4) (a 5) (a 6))
+  | s when pre "rem" s -> resv (fbig_rem b p p m (a 3) (a 4) (a 5) (a 6))
+  | s when pre "remeuc" s -> rawvr (fbig_rem_euclid b p p m (a 3) (a 4) (a 5) (a 6))
+  | "finv" | "finv_r" -> resv (fbig_inv b p m (a 3) (a 4))
+  | "fsqr" -> Some (showv (fbig_sqr b p m (a 3) (a 4)))
+  | "fcubic" -> Some (showv (fbig_cubic b p m (a 3) (a 4)))
+  | "fsqrt" -> resv (fbig_sqrt b p m (a 3) (a 4))
+  | "addprim_fi" | "subprim_fi" ->
+      (* float (op) i64: val/val for +, ref/val for - ; float (op) IBig: ref/val for +, val/val for - (the harness picks) *)
+      let small = Zar.fits_int64 (n ()) in
+      let f = if (op = "addprim_fi") = small then add_float_prim_vv_x else add_float_prim_rv_x in
+      Some (showv (f b p m (a 3) (a 4) (n ()) (sg_of op)))
+  | "addprim_if" | "subprim_if" ->
+      let small = Zar.fits_int64 (n ()) in
+      let f = if (op = "addprim_if") = small then add_prim_float_vr_x else add_prim_float_vv_x in
+      Some (showv (f b p m (n ()) (a 3) (a 4) (sg_of op)))
   | "mulprim_fi" -> Some (showv (mul_float_prim b p m (a 3) (a 4) (n ())))
   | "mulprim_if" -> Some (showv (mul_prim_float b p m (n ()) (a 3) (a 4)))
   | "divprim_fi" -> resv (div_float_prim b p m (a 3) (a 4) (n ()))
@@ -62,11 +92,6 @@ let asis_answer b p m op args =
   | s when pre "divp" s -> resv (fbig_div b p (p2 ()) m (a 3) (a 4) (a 5) (a 6))
   | "mul_vv" | "mul_vr" | "mul_rv" | "mul_rr" | "mul_assign" -> Some (showv (fbig_mul b p p m (a 3) (a 4) (a 5) (a 6)))
   | "div_vv" | "div_vr" | "div_rv" | "div_rr" | "div_assign" -> resv (fbig_div b p p m (a 3) (a 4) (a 5) (a 6))
-  | "mul" -> Some (show (ctx_mul b p m (a 3) (a 4) (a 5) (a 6)))
-  | "sqr" -> Some (show (ctx_sqr b p m (a 3) (a 4)))
-  | "cubic" -> Some (show (ctx_cubic b p m (a 3) (a 4)))
-  | "add" -> both ctx_add_x ctx_add_x1
-  | "sub" -> both ctx_sub_x ctx_sub_x1
   | "add_vv" | "add_assign" -> opv add_val_val_x Positive
   | "add_vr" -> opv add_val_ref_x Positive
   | "add_rv" -> opv add_ref_val_x Positive
@@ -75,8 +100,6 @@ let asis_answer b p m op args =
   | "sub_vr" -> opv add_val_ref_x Negative
   | "sub_rv" -> opv add_ref_val_x Negative
   | "sub_rr" -> opv add_ref_ref_x Negative
-  | "sqrt" -> (match ctx_sqrt b p m (a 3) (a 4) with Ok ap -> Some (show ap) | _ -> None)
-  | "fsqrt" -> (match ctx_sqrt b p m (a 3) (a 4) with Ok ap -> Some (showv (approx_val ap)) | _ -> None)
   | _ -> None
 
 (* alignment branch of an addition / subtraction, for the coverage histogram *)
@@ -101,27 +124,60 @@ let judge_rfract args got =
             (if bits < 8192 then "lt8k" else if bits < 16384 then "8k-16k" else if bits < 32768 then "16k-32k" else "ge32k") in
   expect ~nt:(want <> NoOp) ~extra:("cls=rfract-" ^ cls ^ " asis=same") ("ok " ^ flag_name want) got
 
+(* exact rationals for the remainder family *)
+let fsub a b = fadd a (fneg b)
+let ffloor (n, d) = Zar.fdiv n d          (* d > 0 *)
+let fround_half_away (n, d) =             (* d > 0: nearest integer, ties away from zero *)
+  let k = Zar.fdiv (Zar.add (Zar.mul (Zar.of_int 2) (Zar.abs n)) d) (Zar.mul (Zar.of_int 2) d) in
+  if Zar.sign n < 0 then Zar.neg k else k
+let fint k = (k, Zar.one)
+let euclid_quot x1 x2 =                   (* the integer q with 0 <= x1 - q * x2 < |x2| *)
+  let q = fdiv x1 x2 in
+  if Zar.sign (fst x2) > 0 then ffloor q else Zar.neg (ffloor (fneg q))
+
 let judge op args got =
   if op = "rfract" then judge_rfract args got else
   let b = z (List.nth args 0) and m = mode_of (List.nth args 1) and p = z (List.nth args 2) in
   let x1 = frac b (z (List.nth args 3)) (isz (List.nth args 4)) in
   let x2 () = frac b (z (List.nth args 5)) (isz (List.nth args 6)) in
-  let base_op = match op with "fsqr" -> "sqr" | "fcubic" -> "cubic" | "fsqrt" -> "sqrt"
-    | _ -> (match strip op with "mulp" | "mulprim" -> "mul" | "divp" | "divprim" -> "div" | s -> s) in
+  let long_op = List.mem op [ "addl"; "subl"; "mull"; "divl"; "sqrl"; "cubicl"; "sqrtl"; "invl" ] in
+  let base_op = match op with "fsqr" -> "sqr" | "fcubic" -> "cubic" | "fsqrt" -> "sqrt" | "finv" | "finv_r" -> "inv"
+    | _ when long_op -> String.sub op 0 (String.length op - 1)
+    | _ -> (match strip op with "mulp" | "mulprim" -> "mul" | "divp" | "divprim" -> "div"
+            | "addprim" -> "add" | "subprim" -> "sub" | s -> s) in
   (* primitive (op) float: the operands of the exact result are swapped *)
-  let swapped = (op = "divprim_if") in
+  let swapped = (op = "divprim_if" || op = "subprim_if") in
   let (x1, x2) = if swapped then (x2 (), fun () -> x1) else (x1, x2) in
   (* the precision the result must carry: Context::max of the operand precisions *)
   let p0 = p in
   let p = match strip op with
     | "mulp" | "divp" -> ctx_max p (z (List.nth args 7))
-    | "mulprim" | "divprim" -> ctx_max p (prim_prec b (z (List.nth args 5)))
+    | "mulprim" | "divprim" | "addprim" | "subprim" -> ctx_max p (prim_prec b (z (List.nth args 5)))
     | _ -> p in
-  let divides_by_zero = (base_op = "div" && Zar.sign (fst (x2 ())) = 0) || (base_op = "inv" && Zar.sign (fst x1) = 0) in
+  let euclid_family = List.mem base_op [ "rem"; "remeuc"; "diveuc"; "divremeuc" ] in
+  let divides_by_zero = ((base_op = "div" || euclid_family) && Zar.sign (fst (x2 ())) = 0) || (base_op = "inv" && Zar.sign (fst x1) = 0) in
   let neg_root = base_op = "sqrt" && Zar.sign (fst x1) < 0 in
+  (* the finding classes of operands longer than the precision (Float/LongModel.v), on the stored (normalised) operands *)
+  let nz i = normalize b (z (List.nth args i), z (List.nth args (i + 1))) in
+  let known_class () =
+    if not long_op then None else
+    let (s1, e1) = nz 3 in
+    match op with
+    | "addl" -> let (s2, e2) = nz 5 in if add_short_class b p s1 e1 s2 e2 Positive then Some "add_overlong_cancellation" else None
+    | "subl" -> let (s2, e2) = nz 5 in if add_short_class b p s1 e1 s2 e2 Negative then Some "add_overlong_cancellation" else None
+    | "mull" -> let (s2, _) = nz 5 in if mul_long_class b p s1 s2 then Some "overlong_operand_double_rounding" else None
+    | "divl" -> let (s2, _) = nz 5 in if div_long_class b p s1 s2 then Some "overlong_operand_double_rounding" else None
+    | "sqrl" -> if sqr_long_class b p s1 then Some "overlong_operand_double_rounding" else None
+    | "cubicl" -> if cubic_long_class b p s1 then Some "overlong_operand_double_rounding" else None
+    | _ -> None in
   if divides_by_zero then expect ~extra:"cls=div0" "panic DivideBy0" got
   else if neg_root then expect ~extra:"cls=negroot" "panic RootNegative" got
-  else
+  else if base_op = "diveuc" then begin
+    let q = euclid_quot x1 (x2 ()) in
+    let (s1, e1) = nz 3 and (s2, e2) = nz 5 in
+    let fid = match fbig_div_euclid b s1 e1 s2 e2 with Ok q' -> if Zar.equal q q' then "asis=same" else "asis=diff" | _ -> "asis=diff" in
+    expect ~extra:("cls=diveuc " ^ fid) ("ok " ^ hx q) got
+  end else
     let x = match base_op with
       | "add" -> let (n, d) = fadd x1 (x2 ()) in XRat (n, d)
       | "sub" -> let (n, d) = fadd x1 (fneg (x2 ())) in XRat (n, d)
@@ -131,23 +187,36 @@ let judge op args got =
       | "sqr" -> let (n, d) = fmul x1 x1 in XRat (n, d)
       | "cubic" -> let (n, d) = fmul x1 (fmul x1 x1) in XRat (n, d)
       | "sqrt" -> let (n, d) = x1 in XSqrt (n, d)
+      | "rem" -> (* x1 - n * x2, n = x1 / x2 rounded to nearest, ties away *)
+          let n = fround_half_away (fdiv x1 (x2 ())) in
+          let (n, d) = fsub x1 (fmul (fint n) (x2 ())) in XRat (n, d)
+      | "remeuc" | "divremeuc" ->
+          let q = euclid_quot x1 (x2 ()) in
+          let (n, d) = fsub x1 (fmul (fint q) (x2 ())) in XRat (n, d)
       | _ -> failwith ("op " ^ op) in
+    (* div_rem_euclid: the quotient comes first *)
+    let (got, qok) = match base_op, got with
+      | "divremeuc", "ok" :: q :: rest -> ("ok" :: rest, Zar.equal (z q) (euclid_quot x1 (x2 ())))
+      | _ -> (got, true) in
     match got with
     | [ "ok"; s; e; f; prec ] ->
         if s = "inf" || s = "-inf" then fail "finite-result"
+        else if not qok then fail "euclidean-quotient"
+        else if not (is_normal b (z s) (isz e)) then fail "result-not-normalised"   (* C03_results_are_normalised *)
         else if z prec <> p then fail ("precision-" ^ hx p)
         else
           let ok = check_contract b p m x (z s) (isz e) (flag_of f) in
           let exact = (cmp_kx b Zar.one x (z s) (isz e) = Eq) in
-          let cls = (if exact then "exact" else "inexact") ^ "-" ^ f in
-          let fid = match asis_answer b p0 m op args with
-            | Some want -> if want = s ^ " " ^ e ^ " " ^ f then " asis=same" else " asis=diff"
-            | None -> "" in
-          let fid = fid ^ add_path_of b p op args in
+          let cls = (if long_op then "long-" else "") ^ (if euclid_family then base_op ^ "-" else "") ^ (if exact then "exact" else "inexact") ^ "-" ^ f in
+          let asis = asis_answer b p0 m (if base_op = "divremeuc" then "remeuc_" else op) args in
+          let same = (asis = Some (s ^ " " ^ e ^ " " ^ f)) in
+          let fid = match asis with Some _ -> if same then " asis=same" else " asis=diff" | None -> "" in
+          let fid = fid ^ add_path_of b p (if long_op then "" else op) args in
           if ok then pass ~extra:("cls=" ^ cls ^ fid) ()
           else begin
-            (* diagnose: the correctly rounded p-digit result, for the replay *)
-            { v = "fail"; extra = "contract-violated cls=" ^ cls }
+            match known_class () with
+            | Some tag when same -> { (known tag (match asis with Some w -> w | None -> "")) with extra = "cls=known-" ^ tag ^ fid }
+            | _ -> { v = "fail"; extra = "contract-violated cls=" ^ cls }
           end
     | _ -> fail "ok-sig-exp-flag-prec"
 
